@@ -2,6 +2,8 @@
   C14 — Raw bytes become a structure only when aligned, padded and size-consistent.
   Property theorems only; helper lemmas live in Mb2/Lemmas.
 -/
+import Mb2.Props.FnsLinked
+import Mb2.Props.FnsGetters
 import Mb2.Props.FnsAlign
 import Mb2.Props.FnsBytesRef
 import Mb2.Props.FnsTagHdr
